@@ -170,8 +170,23 @@ def run(tier, seed, replay):
     # ---------- consistent images made by the independent builder (all cluster kinds) must be accepted
     import foreign
     fpaths = []
-    for k in range(10 if tier == 'quick' else 120):
+    for k in range(64 if tier == 'quick' else 240):
         top = foreign.rand_desc(rng, with_backing=False, allow_v2=True, cbs=[9, 10, 12], nclusters=rng.choice([8, 20, 40]))
+        if k % 4 != 0:
+            # many compressed clusters packed into shared host clusters in an order that is not the guest order, in the
+            # middle of a long run of used host clusters
+            import qimg
+            cbx = rng.choice([12, 16])
+            csx = 1 << cbx
+            n = rng.choice([16, 30])
+            cl = {}
+            for gc in range(n):
+                r = rng.random()
+                if r < 0.6:
+                    cl[gc] = ('compressed', foreign.cluster_bytes(rng, csx, 'pattern'))
+                elif r < 0.9:
+                    cl[gc] = ('data', foreign.cluster_bytes(rng, csx, 'blocks'))
+            top = qimg.ImageDesc(version=3, cluster_bits=cbx, refcount_order=4, size=n * csx, clusters=cl, shuffle_seed=rng.randrange(1, 1 << 30))
         try:
             ps, _ = foreign.write_images(d, 'c20f_%d' % k, [top])
         except ValueError:
